@@ -45,6 +45,7 @@ SPECS = {
     "labels": ("Eb", lambda t: ["labels", "20000" if t == "thorough" else "5000"], "decimal/roman format(n) vs reference formatters; PageLabel/PageLabelTree::to_dict read by an independent object-level reader"),
     "content": ("Eb", lambda t: ["content", "4" if t == "thorough" else "3"], "API -> content stream -> ContentParser::parse_strict: show-text operands and f64 operands with NaN/inf"),
     "png-grid": ("Eb", lambda t: ["png-grid"], "PNG files from a reference encoder (gray 1/2/4/8 bit, RGB8; filters 0-4; widths 1..17) -> Image::from_png_data vs expected 8-bit samples"),
+    "opnames": ("Eb", lambda t: ["opnames"], "resource names in drawing operators: draw_image(name) -> content -> parser"),
     "letters": ("Eb", lambda t: ["letters", "20000" if t == "thorough" else "5000"], "PageLabelStyle letters format(n) vs ISO and vs bijective base-26"),
 }
 
@@ -77,6 +78,10 @@ def run(prop, names, tier):
                 rec["subbyte_total"] = res.get("subbyte_total"); rec["subbyte_wrong"] = res.get("subbyte_wrong")
                 rec["failures"].append(dict(unit="standin", function="png-grid-subbyte", message=f"Eb stand-in: {res['subbyte_wrong']} of {res['subbyte_total']} gray PNGs with bit depth < 8 do not decode to the expected samples",
                                             line=0, src=None, spans=[], rendered="", engine="Eb", standin_witness=[dict(depth=1, width=16, height=1)]))
+            if nm == "opnames" and res.get("irregular_wrong"):
+                rec["irregular_wrong"] = res.get("irregular_wrong")
+                rec["failures"].append(dict(unit="standin", function="opnames-irregular", message=f"Eb stand-in: {res['irregular_wrong']} resource names with white space / delimiters / '#' are not read back from the content stream",
+                                            line=0, src=None, spans=[], rendered=json.dumps(res.get("examples"))[:1500], engine="Eb", standin_witness=res.get("examples")))
             if nm == "enc-tables":
                 rec["silent_replacement_count"] = res.get("silent_replacement_count")
                 rec["pdfdoc_disagreement_count"] = res.get("pdfdoc_disagreement_count")
